@@ -5,8 +5,11 @@ import Tickit.Proof.RBFlushReach
 
   The model (Model/RBFlush.lean) mirrors the code *with* the two repairs fixes/C04_flush_wide_cut.patch and
   fixes/C04_linechars_fallback.patch; the code before them is kept (`textReqsOld`, `linemaskToCharOld`) for the
-  counterexample theorems.  One known finding remains (a CHAR cell holding a code point that is not one column
-  wide): `flush_spec` carries the hypothesis that excludes exactly that.
+  counterexample theorems.  Two known findings remain: a CHAR cell holding a code point that is not one column wide
+  (`flush_spec` carries the hypothesis `CharOK` that excludes exactly that) and content of the buffer beyond the
+  terminal's size, which the flush does not clip (`flush_spec_screen`: any buffer size, any screen size, under the
+  hypothesis that the content lies within the screen; `FlushSpec` is the special case of a terminal at least as wide as
+  the buffer on a plane unbounded downwards).
 -/
 namespace Tickit.Props.C04
 open Tickit Tickit.RB Tickit.RBFlush
